@@ -23,22 +23,29 @@ documentation names — `fit_tilt` touches only `opd` and `tilt` (never amplitud
 setter only its own attribute, the spectrum editing methods only wave/value(/units) — read off the source on every run -/
 theorem inplace_writes_go_through_documented_attributes :
     (Gen.effTable.filter fun r => r.pub && !r.writePaths.isEmpty).map (fun r => (r.fn, r.writePaths)) =
-      [("plane.Plane.amplitude", [("self", "amplitude")]),
+      [("plane.Plane.amplitude.setter", [("self", "amplitude")]),
        ("plane.Plane.fit_tilt", [("self", "opd"), ("self", "tilt")]),
-       ("plane.Plane.opd", [("self", "opd")]),
-       ("radiometry.Material.emission", [("self", "emission")]),
-       ("radiometry.Material.transmission", [("self", "transmission")]),
+       ("plane.Plane.opd.setter", [("self", "opd")]),
+       ("radiometry.Material.emission.setter", [("self", "emission")]),
+       ("radiometry.Material.transmission.setter", [("self", "transmission")]),
        ("radiometry.Spectrum.append", [("self", "value"), ("self", "wave")]),
        ("radiometry.Spectrum.crop", [("self", "value"), ("self", "wave")]),
        ("radiometry.Spectrum.pad", [("self", "value"), ("self", "wave")]),
        ("radiometry.Spectrum.resample", [("self", "value"), ("self", "wave"), ("self", "waveunit")]),
        ("radiometry.Spectrum.to", [("self", "value"), ("self", "valueunit"), ("self", "wave"), ("self", "waveunit")]),
        ("radiometry.Spectrum.trim", [("self", "value"), ("self", "wave")]),
-       ("radiometry.Spectrum.value", [("self", "value")]),
-       ("radiometry.Spectrum.valueunit", [("self", "valueunit")]),
-       ("radiometry.Spectrum.wave", [("self", "wave")]),
-       ("radiometry.Spectrum.waveunit", [("self", "waveunit")]),
-       ("wavefront.Wavefront.ptype", [("self", "ptype")])] := by decide +kernel
+       ("radiometry.Spectrum.value.setter", [("self", "value")]),
+       ("radiometry.Spectrum.valueunit.setter", [("self", "valueunit")]),
+       ("radiometry.Spectrum.wave.setter", [("self", "wave")]),
+       ("radiometry.Spectrum.waveunit.setter", [("self", "waveunit")]),
+       ("wavefront.Wavefront.ptype.setter", [("self", "ptype")])] := by decide +kernel
+
+/-- results are fresh unless documented otherwise (regenerated `returnsAlias`): the only public functions whose return value may be
+(a view of) one of their arguments are attribute getters, the in-place functions returning their target, `window`/`subarray` views
+and pass-through sanitizers — the list `viewReturning`; the heap model makes such a result share its cells with that argument, so
+a later in-place call on the result is accounted to the caller's cell -/
+theorem results_are_fresh_unless_documented_view :
+    (Gen.effTable.filter fun r => r.pub && !r.returnsAlias.isEmpty).map (·.fn) = viewReturning := by decide +kernel
 
 /-- no function writes a module-level object or a value handed out by a cached function; the only cache is `_dft2_coords`
 and the only module-level containers are two constant tables -/
@@ -64,7 +71,7 @@ theorem caller_cells_frame (tbl : List Gen.EffRow) (ops : List Op) (s : State) (
     (halloc : ∀ op ∈ ops, op.res ≠ some c) (h : (run tbl s ops).val c ≠ s.val c) :
     ∃ pre op post, ops = pre ++ op :: post ∧
       ∃ b ∈ op.bind, b.1 ∈ writeSlots tbl op ∧ (c = b.2 ∨ ∃ a, (a, c) ∈ (run tbl s pre).refs b.2 ∧
-        ((writeAttrs tbl op b.1).isEmpty = true ∨ a ∈ writeAttrs tbl op b.1)) := by
+        (a = "*" ∨ (writeAttrs tbl op b.1).isEmpty = true ∨ a ∈ writeAttrs tbl op b.1)) := by
   induction ops generalizing s with
   | nil => exact absurd rfl h
   | cons op rest ih =>
@@ -84,7 +91,7 @@ theorem caller_cell_changes_only_under_documented_inplace (ops : List Op) (s : S
     ∃ pre op post, ops = pre ++ op :: post ∧ ∃ b ∈ op.bind,
       (op.fn, b.1) ∈ documentedInPlace ∧
       (c = b.2 ∨ ∃ a, (a, c) ∈ (run Gen.effTable s pre).refs b.2 ∧
-        ((writeAttrs Gen.effTable op b.1).isEmpty = true ∨ a ∈ writeAttrs Gen.effTable op b.1)) := by
+        (a = "*" ∨ (writeAttrs Gen.effTable op b.1).isEmpty = true ∨ a ∈ writeAttrs Gen.effTable op b.1)) := by
   obtain ⟨pre, op, post, he, b, hb, hs, hc⟩ := caller_cells_frame Gen.effTable ops s c halloc h
   refine ⟨pre, op, post, he, b, hb, ?_, hc⟩
   obtain ⟨r, hr, hp⟩ := hpub op (by rw [he]; simp)
@@ -204,7 +211,7 @@ theorem plane_state_total_invariant {R : Type} [Field R] [RealLike R] (h1 : (Rea
 through `opd` or `tilt` — a caller's amplitude (or any other) array held by the plane is outside its write set, in every state -/
 theorem inplace_fit_never_writes_amplitude (s : State) (op : Op) (hfn : op.fn = "plane.Plane.fit_tilt") (c : Cell)
     (hc : c ∈ writeCells Gen.effTable s op) :
-    ∃ b ∈ op.bind, c = b.2 ∨ (("opd", c) ∈ s.refs b.2 ∨ ("tilt", c) ∈ s.refs b.2) := by
+    ∃ b ∈ op.bind, c = b.2 ∨ (("opd", c) ∈ s.refs b.2 ∨ ("tilt", c) ∈ s.refs b.2 ∨ ("*", c) ∈ s.refs b.2) := by
   obtain ⟨b, hb, hs, h⟩ := (mem_writeCells Gen.effTable s op c).mp hc
   refine ⟨b, hb, ?_⟩
   have hslot : b.1 = "self" := by
@@ -224,12 +231,13 @@ theorem inplace_fit_never_writes_amplitude (s : State) (op : Op) (hfn : op.fn = 
   · exact Or.inl h
   · right
     rw [hslot, hattrs] at hok
-    rcases hok with hok | hok
+    rcases hok with rfl | hok | hok
+    · exact Or.inr (Or.inr ha)
     · simp at hok
     · simp only [List.mem_cons, List.mem_nil_iff, or_false] at hok
       rcases hok with rfl | rfl
       · exact Or.inl ha
-      · exact Or.inr ha
+      · exact Or.inr (Or.inl ha)
 
 /-- non-vacuity: a two-call history (construct a plane from caller arrays 0 and 1, fit its tilt in place) in which the
 frame theorem's conclusion is the in-place fit on the plane that holds cell 1 by reference -/
